@@ -69,7 +69,7 @@ def run(chk):
     # ---- random bodies in every position ----
     n = chk.scale(400, 6000)
     for i in range(n):
-        pos = rng.choice(["init", "init2", "ptrs", "call", "asm", "char", "multi", "splice", "call2", "calls", "expr2"])
+        pos = rng.choice(["init", "init2", "ptrs", "call", "asm", "char", "multi", "splice", "call2", "calls", "expr2", "ptrs-mixed"])
         b1, c1 = rand_body(rng)
         b2, c2 = rand_body(rng)
         deco = rng.choice(["", " // tail \"q", " /* c \" */", ""])
@@ -99,6 +99,14 @@ def run(chk):
         elif pos == "expr2":
             src = 'char *p; char x;\nchar f(char *a) { p = a; return 1; }\nvoid main() { x = f("%s") + f("%s");%s\n}\n' % (b1, b2, deco)
             want = {"*": [c1 + [0], c2 + [0]]}
+        elif pos == "ptrs-mixed":  # a table of pointers whose entries are literals, names of arrays and numbers, then a later literal
+            b3, c3 = rand_body(rng)
+            ents = [('"%s"' % b1, c1 + [0]), ('"%s"' % b2, c2 + [0]), ("other", [1, 2]), ("other", [1, 2])]
+            rng.shuffle(ents)
+            ents = ents[:rng.randint(2, 4)]
+            src = ('const char other[2] = {1, 2};\nconst char *t[%d] = {%s};%s\nchar *p;\nvoid main() { p = "%s"; }\n'
+                   % (len(ents), ", ".join(e[0] for e in ents), deco, b3))
+            want = {"*": [e[1] for e in ents if e[0] != "other"] + [c3 + [0]], "table": ("t", [e[1] for e in ents])}
         elif pos == "multi":
             src = '#define MAX 9\nconst char a[] = "%s"; const char b[] = "%s";%s\nvoid main() {}\n' % (b1, b2, deco)
             want = {"a": c1 + [0], "b": c2 + [0]}
@@ -145,6 +153,13 @@ def run(chk):
             if got != sorted(want["*"]):
                 chk.fail("literal-lost-in-expression", "the literals of one statement are stored as %s, written %s" % (got, sorted(want["*"])),
                          {"source": src, "stored": got, "expected": sorted(want["*"])})
+            elif "table" in want:
+                # every entry of the table designates the bytes written at that place
+                tv = vars_.get(want["table"][0])
+                ents_ = [arr_values(vars_[unhx(e[0])]) if unhx(e[0]) in vars_ else None for e in tv["def"][1]] if tv and tv["def"][0] == "ptrs" else None
+                if ents_ != want["table"][1]:
+                    chk.fail("pointer-table-entry", "the entries of the pointer table designate %s, written %s" % (ents_, want["table"][1]),
+                             {"source": src, "designated": ents_, "expected": want["table"][1]})
             continue
         for name, codes in want.items():
             v = vars_.get(name)
